@@ -288,11 +288,8 @@ func (s *Snapshotter) stream() {
 				s.aliveNodes = make(map[string]string)
 			}
 			s.tryAppend("leave\n")
-			if err := s.buffered.Flush(); err != nil {
+			if err := s.flushAndSync(); err != nil {
 				s.logger.Printf("[ERR] serf: failed to flush leave to snapshot: %v", err)
-			}
-			if err := s.fh.Sync(); err != nil {
-				s.logger.Printf("[ERR] serf: failed to sync leave to snapshot: %v", err)
 			}
 
 		case e := <-s.streamCh:
@@ -321,17 +318,28 @@ func (s *Snapshotter) stream() {
 				}
 			}
 
-			if err := s.buffered.Flush(); err != nil {
+			if err := s.flushAndSync(); err != nil {
 				s.logger.Printf("[ERR] serf: failed to flush snapshot: %v", err)
 			}
-			if err := s.fh.Sync(); err != nil {
-				s.logger.Printf("[ERR] serf: failed to sync snapshot: %v", err)
+			if s.fh != nil {
+				s.fh.Close()
 			}
-			s.fh.Close()
 			close(s.waitCh)
 			return
 		}
 	}
+}
+
+// flushAndSync hands the buffered lines to the file and syncs it. The handles
+// are unset while a failed compaction has not been repeated successfully.
+func (s *Snapshotter) flushAndSync() error {
+	if s.buffered == nil || s.fh == nil {
+		return fmt.Errorf("snapshot file is not open")
+	}
+	if err := s.buffered.Flush(); err != nil {
+		return err
+	}
+	return s.fh.Sync()
 }
 
 // processMemberEvent is used to handle a single member event
@@ -407,6 +415,12 @@ func (s *Snapshotter) tryAppend(l string) {
 // appendLine is used to append a line to the existing log
 func (s *Snapshotter) appendLine(l string) error {
 	defer metrics.MeasureSinceWithLabels([]string{"serf", "snapshot", "appendLine"}, time.Now(), s.metricLabels)
+
+	// A compaction that failed half way leaves no open snapshot file behind;
+	// report that as an error so that tryAppend retries the compaction.
+	if s.buffered == nil || s.fh == nil {
+		return fmt.Errorf("snapshot file is not open")
+	}
 
 	n, err := s.buffered.WriteString(l)
 	if err != nil {
@@ -516,15 +530,19 @@ func (s *Snapshotter) compact() error {
 
 	// Flush the existing snapshot, ignoring errors since we will
 	// delete it momentarily.
-	_ = s.buffered.Flush()
+	if s.buffered != nil {
+		_ = s.buffered.Flush()
+	}
 	s.buffered = nil
 
 	// Close the file handle to the old snapshot
-	s.fh.Close()
+	if s.fh != nil {
+		s.fh.Close()
+	}
 	s.fh = nil
 
-	// Delete the old file
-	if err := os.Remove(s.path); err != nil {
+	// Delete the old file (an earlier, failed compaction may already have)
+	if err := os.Remove(s.path); err != nil && !os.IsNotExist(err) {
 		return fmt.Errorf("failed to remove old snapshot: %v", err)
 	}
 
